@@ -205,6 +205,8 @@ var (
 	VerifRealOut func(e *Event)
 	// VerifRealTimeouts counts the stream time-out events the real action was given in this run
 	VerifRealTimeouts int
+	// VerifRealIdle, when set, runs after the scenario went idle (end-state oracles of the plugin's harness)
+	VerifRealIdle func()
 )
 
 // observes what the real action decides (a collapsed or discarded event is not committed)
@@ -224,6 +226,13 @@ func (a *verifWrap) Do(e *Event) ActionResult {
 	res := a.inner.Do(e)
 	if res == ActionCollapse || res == ActionDiscard {
 		a.w.dropped[off] = true
+	}
+	if res == ActionBreak {
+		// the event became the parent of a split: it is committed, never sent itself
+		if a.w.splitParent == nil {
+			a.w.splitParent = map[int64]bool{}
+		}
+		a.w.splitParent[off] = true
 	}
 	return res
 }
@@ -391,6 +400,9 @@ func VerifH_C01_pipeline() {
 		vf.Assert(w.committed[o] == 1 || (w.dropped[o] && w.committed[o] == 0), "every-event-committed-once-or-dropped")
 	}
 	vf.Assert(p.eventPool.inUse() == 0, "in-use-returns-to-zero")
+	if VerifRealIdle != nil && vf.Param("real", 0) == 1 {
+		VerifRealIdle()
+	}
 	vf.Reach("idle")
 	if len(w.commitSeq["a"]) >= 2 || len(w.commitSeq["b"]) >= 2 {
 		vf.Reach("two-commits-in-one-stream")
